@@ -51,6 +51,28 @@ CHECKS["C10"] = dict(
          "half-closing and aborting clients beside a probe connection; release observed through the connection counter and Shutdown.",
     ref="DESIGN.md §6 C10", technique="Coq proof (refinement + characterisation of the dispatch log) + differential correspondence with fault injection at every offset")
 
+CHECKS["C02"] = dict(
+    text="Coq theorems: string / value / RawMessage encodings contain no byte below 0x20, so replies and calls are NUL-free before their terminating NUL; "
+         "deframing yields exactly the messages sent for every partition into segments and every buffer capacity (Props/C02.v); tie: byte-exact comparison of the "
+         "service's reply marshalling and Connection.Send with the model on generated values incl. multi-MiB and deeply nested ones, and client<->service runs through "
+         "a re-segmenting proxy.",
+    ref="DESIGN.md §6 C02", technique="Coq proof (structural induction on values; stream invariant of the reader) + differential correspondence")
+CHECKS["C03"] = dict(
+    text="Coq theorems over the codec composition (scanner reads back exactly the encoder's output; raw parameters are cut out verbatim; parse . encode = id for "
+         "valid-UTF-8 strings and well-formed numbers) (Props/C03.v); tie: real client <-> real service on filesystem unix, abstract unix, TCP and bridge transports "
+         "with JSON-equality of what the handler reads / the client receives as independent oracle, continues bits on all replies but the last.",
+    ref="DESIGN.md §6 C03", technique="Coq proof (codec round trip) + differential correspondence on four transports")
+CHECKS["C12"] = dict(
+    text="Coq theorems: ReplyError writes iff the name has a non-empty interface part other than org.varlink.service, refused attempts write nothing, the reply "
+         "carries name and parameters verbatim, the four standard helpers carry their argument (Props/C12.v); tie: error-name grammar x parameter objects, real "
+         "service and real client, refusal made observable by a marker reply.",
+    ref="DESIGN.md §6 C12", technique="Coq proof (string lemmas on the last dot; codec) + differential correspondence")
+CHECKS["C13"] = dict(
+    text="Coq theorems over the registry state machine: names = org.varlink.service followed by the successful registrations in order, each once; refused "
+         "registrations (duplicate, while listening) leave the state unchanged; GetInfo / GetInterfaceDescription report exactly the registered values "
+         "(Props/C13.v); tie: operation histories on a real Service object observed through HandleMessage and through the client helpers, plus Resolver helpers.",
+    ref="DESIGN.md §6 C13", technique="Coq proof (invariant by induction over operation sequences) + differential correspondence")
+
 NOT_YET = {
 }
 
